@@ -148,10 +148,10 @@ MUTANTS = [
     ("pytest-checker-first", ["C11"], "_pytest_plugin.py", "    *packages, typechecker = packages", "    typechecker, *packages = packages"),
     ("pytest-no-already-imported-check", ["C11"], "_pytest_plugin.py", "    if already_imported_packages:", "    if False:"),
     ("pyc-tag-without-checker-hash", ["C18"], I, 'path, debug_override, optimization=f"jaxtyping9{typechecker_hash}"', 'path, debug_override, optimization="jaxtyping9"'),
-    ("pyc-no-tag", ["C18"], I, "        with patch(\n            \"importlib._bootstrap_external.cache_from_source\",\n            ft.partial(\n                _optimized_cache_from_source,\n                self._typechecker.get_hash(),\n                self.get_filename(fullname),\n            ),\n        ):\n            return super().get_code(fullname)", "        return super().get_code(fullname)"),
-    # (pyc-patch-whole-exec -- keeping the monkey patch active while the module executes -- became harmless with fix 05dd498: the replacement only
+    ("pyc-no-tag", ["C18"], I, "        with patch(\n            \"importlib._bootstrap_external.cache_from_source\",\n            ft.partial(\n                _optimized_cache_from_source,\n                self._typechecker.get_hash(),\n                self.get_filename(fullname),\n                _bootstrap_external.cache_from_source,\n            ),\n        ):\n            return super().get_code(fullname)", "        return super().get_code(fullname)"),
+    # (pyc-patch-whole-exec -- keeping the monkey patch active while the module executes -- became harmless with fix 6ec1c65: the replacement only
     #  redirects the instrumented module's own path.  Its place is taken by the revert of that fix.)
-    ("pyc-marker-for-every-path", ["C18"], I, "    if path != own_path:\n        return cache_from_source(path, debug_override, **kwargs)", "    if False:\n        return cache_from_source(path, debug_override, **kwargs)"),
+    ("pyc-marker-for-every-path", ["C18"], I, "    if path != own_path:\n        return fallback(path, debug_override, **kwargs)", "    if False:\n        return fallback(path, debug_override, **kwargs)"),
     ("pyc-hash-collapses", ["C18"], I, '            self.hash = hashlib.md5(typechecker.encode("utf-8")).hexdigest()', '            self.hash = hashlib.md5(typechecker.split(".")[0].encode("utf-8")).hexdigest()'),
     ("check-reads-values", ["C17"], A, "        if get_treeflatten_memo():\n            return \"\"\n", "        if get_treeflatten_memo():\n            return \"\"\n        if hasattr(obj, 'sum') and len(obj.shape) > 0 and obj.shape[0] > 1 and bool(obj.sum() != obj.sum()):\n            return 'nan'\n"),
     ("check-asarray", ["C17"], A, "        if get_treeflatten_memo():\n            return \"\"\n", "        if get_treeflatten_memo():\n            return \"\"\n        if len(getattr(obj, 'shape', ())) == 2:\n            np.asarray(obj)\n"),
